@@ -15,7 +15,8 @@
  * changed after their apply() had returned; then {"done":true}.
  * A watchdog reports {"deadlock":true} and exits when, on 8 consecutive samples 250 ms apart, nothing progressed AND every
  * other thread of the process was sleeping (state S in /proc): a thread that merely lacks a CPU is in state R, so machine
- * load cannot produce this report.
+ * load cannot produce this report.  It reports {"livelock":true} when the process has burnt 120 s of CPU (rusage, not
+ * wall-clock) without a single element or apply() completing (threads spinning on a condition that never comes true).
  */
 #include "simgrid/s4u/Engine.hpp"
 #include "src/kernel/EngineImpl.hpp"
@@ -71,11 +72,20 @@ static bool all_others_sleeping(pid_t self_tid)
   return all && seen > 0;
 }
 
+static const double LIVELOCK_CPU_S = 120.0;
+static double cpu_seconds()
+{
+  struct rusage ru;
+  getrusage(RUSAGE_SELF, &ru);
+  return ru.ru_utime.tv_sec + ru.ru_stime.tv_sec + (ru.ru_utime.tv_usec + ru.ru_stime.tv_usec) / 1e6;
+}
+
 static void watchdog()
 {
   pid_t tid          = static_cast<pid_t>(syscall(SYS_gettid));
   unsigned long last = progress.load();
   int stuck          = 0;
+  double cpu_mark    = cpu_seconds();
   while (not finished.load()) {
     std::this_thread::sleep_for(std::chrono::milliseconds(250));
     unsigned long now = progress.load();
@@ -83,6 +93,14 @@ static void watchdog()
       stuck++;
     else
       stuck = 0;
+    if (now != last)
+      cpu_mark = cpu_seconds();
+    else if (cpu_seconds() - cpu_mark > LIVELOCK_CPU_S && not finished.load()) {
+      // CPU really consumed by this process (not wall-clock time) while not a single element or apply() completed
+      printf("{\"livelock\":true,\"progress\":%lu,\"cpu_without_progress\":%.0f}\n", now, cpu_seconds() - cpu_mark);
+      fflush(stdout);
+      _exit(4);
+    }
     last = now;
     if (stuck >= 8 && not finished.load()) {
       printf("{\"deadlock\":true,\"progress\":%lu}\n", now);
